@@ -294,10 +294,61 @@ pub fn run(tier: Tier) -> Report {
         }
     });
     rep.acc.merge(acc);
+    // (mantissa x exponent) x lattice of t = y*log2(x): powf is exp2(y*log2 x), whose error is a function
+    // of the mantissa of x (the log2 polynomial) and of the integer and fractional part of t (the exp2
+    // split); the (x,y) grid above samples frac(t) irregularly, this one places it on a lattice of its own
+    // (k + j/F for every integer k the contract allows, plus both sides of 0 and 1/2)
+    if !light() {
+        let mb: u32 = tier.pick(10, 12);
+        let nf: u64 = tier.pick(256, 1024);
+        let nm2 = 1u64 << mb;
+        let exps: [i32; 6] = [-3, -2, -1, 0, 1, 2];
+        let nk = 233u64; // k = -116..=116
+        let nfr = nf + 4;
+        let total = exps.len() as u64 * nm2 * nk * nfr;
+        let acc = par_chunks(total, 1 << 18, |acc, lo, hi| {
+            let mut worst = 0.0;
+            let mut wc = (0, 0);
+            let mut n = 0;
+            for i in lo..hi {
+                let fi = i % nfr;
+                let k = (i / nfr) % nk;
+                let xm = (i / (nfr * nk)) % nm2;
+                let xe = exps[(i / (nfr * nk * nm2)) as usize];
+                let x = f32::from_bits((((127 + xe) as u32) << 23) | ((xm as u32) << (23 - mb)));
+                let l2 = (x as f64).log2();
+                if l2 == 0.0 {
+                    continue;
+                }
+                let frac = match fi {
+                    f if f < nf => f as f64 / nf as f64,
+                    f if f == nf => 1e-4,
+                    f if f == nf + 1 => 1.0 - 1e-4,
+                    f if f == nf + 2 => 0.5 - 1e-4,
+                    _ => 0.5 + 1e-4,
+                };
+                let t = k as f64 - 116.0 + frac;
+                let y = (t / l2) as f32;
+                if !(y.abs() <= 80.0) {
+                    continue;
+                }
+                match pow_one(acc, i, x, y, &mut worst, &mut wc) {
+                    None => return,
+                    Some(true) => n += 1,
+                    Some(false) => {}
+                }
+            }
+            acc.states += hi - lo;
+            acc.transitions += n;
+            acc.bucket("powf (mantissa, t = y*log2 x) lattice: within bound", n);
+            acc.worst("powf err/bound (mantissa, t) lattice", worst, || json!({"x": wc.0, "y": wc.1}));
+        });
+        rep.acc.merge(acc);
+    }
     rep.acc.sample(json!({"fn":"cbrtf","domain":"every one of the 2^32 f32 bit patterns","oracle":"f64 cbrt, <= 1 ulp, bitwise oddness"}));
     rep.exhaustive = false;
     rep.bound = format!(
-        "cbrtf and expf: all 2^32 bit patterns (completely exhaustive); powf: {} for each of the 12 exponents the library uses, base 10 over the C03 stratum for both log curves, the full product of 254 exponents x {nm} mantissas x 1601 y-values (-80..80 step 0.1), and {}^2 special x special pairs for totality",
+        "cbrtf and expf: all 2^32 bit patterns (completely exhaustive); powf: {} for each of the 12 exponents the library uses, base 10 over the C03 stratum for both log curves, the full product of 254 exponents x {nm} mantissas x 1601 y-values (-80..80 step 0.1), the lattice of 6 exponents x 2^10 (thorough 2^12) mantissas x every t = y*log2(x) = k + j/256 (thorough j/1024; plus both sides of 0 and 1/2) with |y| <= 80, and {}^2 special x special pairs for totality",
         tier.pick("every positive normal x with low 8 mantissa bits zero (8.3 M values)", "EVERY positive normal x (2.13e9 values)"),
         specials().len()
     );
@@ -309,6 +360,9 @@ pub fn run(tier: Tier) -> Report {
     rep.guard_bucket("expf [-1e38,-88]: 0");
     rep.guard_bucket("powf fixed exponent: within bound");
     rep.guard_bucket("powf (x,y) product: within bound");
+    if !light() {
+        rep.guard_bucket("powf (mantissa, t = y*log2 x) lattice: within bound");
+    }
     rep
 }
 
